@@ -12,7 +12,8 @@ FMT_NAMES = ['epytext', 'restructuredtext', 'google', 'numpy', 'plaintext', 'nos
 FMT_ID = {n: i for i, n in enumerate(FMT_NAMES)}
 KIND_OBJ = {'module': 'm', 'class': 'm.C', 'function': 'm.f', 'method': 'm.C.meth', 'attribute': 'm.C.x',
             'property': 'm.C.prop'}
-OID = {'A': 1, 'B': 2, 'P': 3}
+OID = {'A': 1, 'B': 2, 'P': 3, 'I': 4}
+INHERITOR = {'method': 'm.D.meth', 'attribute': 'm.D.x', 'property': 'm.D.prop'}
 KEY_OF = {v: k for k, v in OID.items()}
 DOC_A = ' docA <&> \u00e9\n  second line\n'
 DOC_B = 'docB'
@@ -134,10 +135,8 @@ def to_model(case: dict) -> str:
         parent = [OID[o['parent']]] if o.get('parent') else []
         modfmt = [FMT_ID[case['modfmt']]] if case.get('modfmt') else []
         doc = [o['doc']] if o['doc'] is not None else []
-        row = [OID[key], parent, modfmt, doc]
-        if key in case.get('preset', {}):
-            row.append([case['preset'][key]['id']])
-        objs.append(row)
+        preset = [case['preset'][key]['id']] if key in case.get('preset', {}) else []
+        objs.append([OID[key], parent, modfmt, doc, preset, [OID[k] for k in o.get('inherits', [])]])
     cfg = [FMT_ID[case['sysfmt']], 1 if case['pt'] else 0, 1 if case.get('tocdepth', 6) > 0 else 0, objs,
            list(t.pdocs.values()), t.parsers, list(t.ptypes.values()), t.plainsums]
     ops = []
@@ -243,10 +242,21 @@ def canon_impl(case: dict, r: Any) -> Any:
 
 
 # ------------------------------------------------------------------------------------------------ the property, on one observation
+def source_of(case: dict, key: str) -> Tuple[Optional[str], Optional[str]]:
+    """(source key, docstring) as model.get_docstring finds them: the object itself, then what it overrides."""
+    for k in [key] + case['objs'][key].get('inherits', []):
+        d = case['objs'][k]['doc']
+        if d:
+            return k, d
+        if d is not None:
+            return k, None
+    return None, None
+
+
 def gives_up(case: dict, key: str) -> Optional[str]:
     """Does the (stub) parser pipeline give up on key's docstring?  'pe' / 'exc' / None.  Independent of the model:
     read off the stub specification."""
-    o = case['objs'][key]
+    o = {'doc': source_of(case, key)[1]}
     if not o['doc']:
         return None
     fmt = 'plaintext' if case['sysfmt'] == 'plaintext' else (case.get('modfmt') or case['sysfmt'])
@@ -275,7 +285,7 @@ def oracle_inject(case: dict, r: Any) -> Optional[Tuple[str, str]]:
     def contract_broken_for(key: str) -> bool:
         # the stub raises ParseError although nothing is in the errs list: a stub that breaks the parser contract
         # ("this error should already be stored in the errs list"), not a defect of pydoctor
-        beh = case['parsers'].get(objs[key]['doc'] or '')
+        beh = case['parsers'].get(source_of(case, key)[1] or '')
         if not beh or beh.get('errs'):
             return False
         if beh['kind'] == 'pe_noapp':
@@ -299,7 +309,8 @@ def oracle_inject(case: dict, r: Any) -> Optional[Tuple[str, str]]:
             seen_fd[key] = seen_fd.get(key, 0) + 1
             if seen_fd[key] >= 2 and o['reports'] and key not in case.get('reparsed', []):
                 return ('once', 'second format_docstring(%s) reported again: %s' % (key, o['reports']))
-            own_doc = objs[key]['doc']
+            src, own_doc = source_of(case, key)
+            src = src or key
             g = gives_up(case, key)
             fresh = key not in case.get('preset', {}) and not any(
                 q[0] == 'extract_fields' and objs[q[1]].get('var_target') == key for q in case['ops'])
@@ -308,26 +319,30 @@ def oracle_inject(case: dict, r: Any) -> Optional[Tuple[str, str]]:
                     return ('fallback', 'parser gave up on %s but the body is %s, not the whole docstring as plain text'
                             % (key, o['body']))
                 contract_broken = contract_broken_for(key)
-                if not (g == 'pe' and contract_broken) and (0, key) not in pe:
-                    return ('unreported', 'parser gave up on %s but it is not in parse_errors[docstring]' % key)
-                if not (g == 'pe' and contract_broken) and not total_reports.get(key):
-                    return ('unreported', 'parser gave up on %s but nothing was reported against it' % key)
+                if not (g == 'pe' and contract_broken) and (0, src) not in pe:
+                    return ('unreported', 'parser gave up on the docstring shown for %s but its owner %s is not in parse_errors[docstring]' % (key, src))
+                if not (g == 'pe' and contract_broken) and not total_reports.get(src):
+                    return ('unreported', 'parser gave up on the docstring shown for %s but nothing was reported against its owner %s' % (key, src))
             if o.get('body') == ['broken'] and own_doc:
-                return ('textlost', 'format_docstring(%s) shows "Broken description" although the object has a docstring' % key)
+                return ('textlost', 'format_docstring(%s) shows "Broken description" although there is a docstring (owner: %s)' % (key, src))
             # a renderer failure of the main body: plaintext of the source's docstring
             beh = case['parsers'].get(own_doc or '')
             if own_doc and fresh and not g and beh and beh['kind'] == 'ok' and beh['pdoc']['to_stan'] != 'ok' \
                     and effective_fmt(case) not in ('plaintext', 'nosuchformat'):
                 if o['body'] != ['pre', own_doc]:
                     return ('fallback', 'to_stan failed for %s but the body is %s' % (key, o['body']))
-                if (0, key) not in pe or not total_reports.get(key):
-                    return ('unreported', 'to_stan failed for %s but nothing was reported against it' % key)
+                if (0, src) not in pe or not total_reports.get(src):
+                    return ('unreported', 'to_stan failed for the docstring shown for %s but nothing was reported against its owner %s' % (key, src))
             if own_doc and fresh and not g and beh and beh['kind'] == 'ok' and beh.get('errs') \
                     and effective_fmt(case) not in ('plaintext', 'nosuchformat'):
-                if (0, key) not in pe or not total_reports.get(key):
-                    return ('unreported', 'recovered markup errors of %s were not reported against it' % key)
+                if (0, src) not in pe or not total_reports.get(src):
+                    return ('unreported', 'recovered markup errors of %s were not reported against %s' % (key, src))
                 if o['body'][0] == 'pre' and beh['pdoc']['to_stan'] == 'ok':
                     return ('fallback', 'recovered markup errors of %s: parsed form dropped for plain text' % key)
+    # an object that only inherits its documentation is never reported itself: the problem belongs to the owner
+    for key, ob in objs.items():
+        if ob.get('inherits') and ob['doc'] is None and any(w == key for s_, w in pe):
+            return ('context', '%s only inherits its docstring but is in parse_errors: errors must go to the owner of the text' % key)
     # isolation, split fields: the parent P is healthy (its parser, renderer and summary work) whatever happens to
     # the attribute A that one of its @ivar fields documents
     if case.get('kind') == 'split':
@@ -378,6 +393,11 @@ def oracle_real(case: dict, r: Any) -> Optional[Tuple[str, str]]:
     if r.get('raised'):
         return ('raises:' + r.get('stage', '?'), '%s raised %s at %s' % (r.get('stage'), r['raised'], r.get('where')))
     doc = r.get('docstring')
+    if r.get('src_qn') and r['src_qn'] != r.get('qn') and r.get('qn') in r.get('parse_errors', []):
+        return ('context', 'the object only inherits its docstring but was added to parse_errors (owner: %s)' % r['src_qn'])
+    if r.get('fallback_ctx') and r.get('src_qn') and any(x != r['src_qn'] for x in r['fallback_ctx']):
+        return ('context', 'format_docstring_fallback was given %s as context, the docstring belongs to %s'
+                % (r['fallback_ctx'], r['src_qn']))
     if r.get('to_node_failed') and doc:
         # an internal failure of the renderer happened while this object was rendered
         if not r['in_parse_errors'] or r['reports_obj'] < 1:
@@ -386,7 +406,8 @@ def oracle_real(case: dict, r: Any) -> Optional[Tuple[str, str]]:
         if r['body_kind'] != 'pre' or r.get('pre_text') != doc:
             return ('internal_textlost', 'renderer failure (%s) but the body is not the whole docstring as plain text: %r'
                     % (r['to_node_failed'], r.get('body_html', '')[:120]))
-    if r.get('flatten_error') and not re.search('[\ud800-\udfff]', case['text']):
+    if r.get('flatten_error'):
+        # (lone surrogates in a docstring are escaped at extraction time since /repo e099606: flatten never sees them)
         return ('flatten', 'the result cannot be flattened: %s' % r['flatten_error'])
     gave_up = r.get('parser_raised')
     if gave_up:
@@ -414,7 +435,7 @@ def oracle_real(case: dict, r: Any) -> Optional[Tuple[str, str]]:
         return ('fallback', 'plain text body differs from the docstring')
     if r['other'] != r['other_ref']:
         return ('isolation', 'output of the unrelated object changed: %r vs %r' % (r['other'], r['other_ref']))
-    if [n for n in r['parse_errors'] if n != r.get('qn')]:
+    if [n for n in r['parse_errors'] if n not in (r.get('qn'), r.get('src_qn'))]:
         return ('isolation', 'another object was added to parse_errors: %s' % r['parse_errors'])
     return None
 
@@ -626,10 +647,9 @@ class Check(PropertyCheck):
     assumptions = [
         'a parser that raises ParseError has appended an error to the list first (holds for epytext by C08_epytext_fatal_raises; '
         'C08_reported_parse_error_refuted shows it is needed)',
-        'to_node raises nothing but NotImplementedError inside get_toc (C08_toc_total_refuted shows it is needed)',
-        'the object renders its own docstring (not a split @ivar field of its parent) for C08_isolation_partial (C08_isolation_split_field_refuted)',
-        'oracles are deterministic; ParsedEpytextDocstring.to_node is not when its conversion raises (C08_epytext_to_node_refuted): '
-        'that case is outside the fallback theorems and is a known finding',
+        'the object renders its own docstring (not a split @ivar field of its parent, not an inherited docstring) for '
+        'C08_isolation_partial (C08_isolation_split_field_refuted); inherited docstrings: C08_inherited_*',
+        'oracles are deterministic (for ParsedEpytextDocstring.to_node: C08_epytext_to_node_deterministic, since /repo ef2e650)',
     ]
     manifest = {
         'text': ('Theorems over Model/DocFlow.v (control flow of parse_docstring, reportErrors, ensure_parsed_docstring, safe_to_stan, '
@@ -639,17 +659,15 @@ class Check(PropertyCheck):
                  'parse_errors[docstring] with at least one report, once (C08_reported_against_object), results and new reports for any '
                  'other object are unchanged (C08_isolation_partial, C08_isolation_frame_partial, C08_isolation_other_object_partial: objects that render their own docstring), recovered errors are reported and the parsed form kept '
                  '(C08_rst_recovered_errors_reported), renderer failures fall back to the plain text / BROKEN '
-                 '(C08_to_stan_failure_fallback, C08_summary_fallback), the first fatal epytext error is raised '
+                 '(C08_to_stan_failure_fallback, C08_to_stan_failure_any_order, C08_inherited_*, C08_summary_fallback), format_toc never raises (C08_toc_total), the first fatal epytext error is raised '
                  '(C08_epytext_fatal_raises); exception skeletons regenerated from /repo show no exception within the oracle '
                  'contract escapes the barrier functions (C08_barrier_total). Tie: exhaustive fault injection into the real functions '
                  'with stub parsers, model/implementation diff per call, plus fuzzing of the real parsers under a wall-clock limit.'),
         'note': ('Partial: termination / exception-freedom inside the real parsers and docutils is only sampled. Known on the unchanged '
-                 'tree (KNOWN-FINDING lines, _refuted theorems): ParsedEpytextDocstring.to_node caches an empty document before a '
-                 'failing conversion, so a real epytext docstring with an indented field followed by a field at the margin is rendered '
-                 'as NOTHING and nothing is reported when the summary was requested first; format_toc lets any exception of to_node '
-                 'other than NotImplementedError escape (same docstring, toc requested first); a split-field attribute whose summary '
-                 'fails to render overwrites its parent\'s cached summary. Trusted: Coq kernel, gen_skeleton.py + allowed_table, '
-                 'extraction, harness.'),
+                 'tree (KNOWN-FINDING line, _refuted theorem): a split-field attribute whose summary fails to render overwrites its '
+                 'parent\'s cached summary. Fixed in /repo ef2e650 (kept as _old_refuted witnesses): epytext to_node caching an empty '
+                 'document before a failing conversion; get_toc letting to_node exceptions escape. Trusted: Coq kernel, '
+                 'gen_skeleton.py + allowed_table, extraction, harness.'),
         'technique': 'Coq proof (state-machine model over oracles, non-interference by two-run simulation) + regenerated exception skeletons + exhaustive fault injection + fuzzing',
     }
 
@@ -735,6 +753,19 @@ class Check(PropertyCheck):
                                   'B': {'name': 'm.Other', 'doc': DOC_B}},
                          'parsers': {DOC_P: {'kind': 'ok', 'errs': 0, 'pdoc': pdP}}, 'ops': ops}
                     out.append(c)
+            # inherited docstrings: I = m.D.<name> has no docstring and overrides A = m.C.<name>
+            for kind, (pk, ne), ts, tn in itertools.product(INHERITOR, (('ok', 0), ('ok', 2), ('pe_app', 0), ('Custom', 1)),
+                                                            ('ok', 'KeyError'), ('ok', 'ValueError')):
+                pd = P(1, to_stan=ts, to_node=tn, title=1, fields=[{'tag': 'note', 'body': P(8, to_stan=ts)}])
+                for idoc in (None, ''):
+                    for ops in ([['format_summary', 'I'], ['format_docstring', 'I'], ['format_toc', 'I'], ['format_docstring', 'I'],
+                                 ['format_docstring', 'A'], ['format_summary', 'A'], ['format_docstring', 'B']],
+                                [['format_docstring', 'A'], ['format_docstring', 'I'], ['format_summary', 'I'], ['format_summary', 'B']]):
+                        out.append({'k': 'inject', 'sysfmt': sysfmt, 'modfmt': None, 'pt': pt, 'tocdepth': 6, 'kind': 'inherited',
+                                    'objs': {'A': {'name': KIND_OBJ[kind], 'doc': DOC_A},
+                                             'I': {'name': INHERITOR[kind], 'doc': idoc, 'inherits': ['A']},
+                                             'B': {'name': 'm.Other', 'doc': DOC_B}},
+                                    'parsers': {DOC_A: {'kind': pk, 'errs': ne, 'pdoc': pd}}, 'ops': ops})
         return out
 
     def random_cases(self, n: int) -> List[dict]:
@@ -782,6 +813,10 @@ class Check(PropertyCheck):
             if docA is not None and r.random() < 0.3:
                 ops.insert(r.randint(0, len(ops)), ['extract_fields', 'A'])
             c = self.base_case(kind, sysfmt, modfmt, r.randint(0, 1), docA, parsers, ops=ops)
+            if kind in INHERITOR and r.random() < 0.5:
+                c['objs']['I'] = {'name': INHERITOR[kind], 'doc': r.choice([None, None, None, '', 'docI own']), 'inherits': ['A']}
+                for _ in range(r.randint(1, 4)):
+                    ops.insert(r.randint(0, len(ops)), [r.choice(['format_docstring', 'format_summary', 'format_toc', 'ensure']), 'I'])
             c['tocdepth'] = r.choice([6, 6, 6, 1, 0])
             # extract_fields after a first parse re-parses and may report again: not a once-per-object violation
             seen = set()
@@ -799,7 +834,7 @@ class Check(PropertyCheck):
         g = Gen(self.rng)
         g.load_harvest(150 if self.tier == 'quick' else 1500)
         self.stats['harvested_docstrings'] = len(g.harvest)
-        kinds = list(KIND_OBJ)
+        kinds = list(KIND_OBJ) + ['inherited', 'inherited_attr']
         fmts = FMT_NAMES[:5]
         out = []
         k = 0
@@ -889,7 +924,7 @@ class Check(PropertyCheck):
                 self.count('oracle_real_' + o[0].split(':')[0])
                 self.keep(out, Violation('oracle', '[%s] %s' % o, case=c, observed={k: r.get(k) for k in
                           ('raised', 'where', 'stage', 'body_kind', 'in_parse_errors', 'reports_obj', 'to_node_failed',
-                           'parser_raised', 'hang', 'body_html', 'other', 'other_ref', 'parse_errors')}), o[0])
+                           'parser_raised', 'hang', 'body_html', 'other', 'other_ref', 'parse_errors', 'qn', 'src_qn', 'fallback_ctx')}), o[0])
         self.evaluations += len(cases)
         self.stats['real_max_wall_s'] = max([r.get('wall_s', 0) for r in impl] or [0])
 
@@ -968,13 +1003,6 @@ class Check(PropertyCheck):
         self.run_real(real, out)
         for c in (ex[37], co[5], rn[3], real[400]):
             self.sample({k: v for k, v in c.items() if k != 'ops'} if c['k'] == 'inject' else c)
-        # the known findings are always present on the unchanged tree, so lib.run_check never calls search() for us:
-        # when model and code disagree and no NEW oracle failure is at hand, widen the streams here
-        known = lib.load_known_findings(self.id)[0]
-        corr = [v for v in out if v.kind == 'correspondence']
-        fresh = [v for v in out if v.kind == 'oracle' and self.classify_known(v, known) is None]
-        if corr and not fresh:
-            out.extend(self.search(corr))
         return out
 
     def search(self, broken: List[Violation]) -> List[Violation]:
@@ -1002,8 +1030,6 @@ class Check(PropertyCheck):
             if m.get('stream') != c.get('k'):
                 continue
             if m['stream'] == 'inject':
-                if m.get('oracle_class') == 'toc_raises' and toc_raise_explained(c):
-                    return k
                 if m.get('oracle_class') == 'isolation_split' and c.get('kind') == 'split':
                     return k
             elif m['stream'] == 'epynode':
